@@ -111,6 +111,13 @@ func (e *Expr) sql(upper bool) string {
 		return fn + "(" + e.Arg + ")"
 	case "lit":
 		return e.Lit
+	case "litlen":
+		// the length of a text literal that reads like an aggregate call of the same item: inside quotes it is text
+		fn := e.Fn
+		if upper {
+			fn = strings.ToUpper(fn)
+		}
+		return "length('" + fn + "(" + e.Arg + ")')"
 	case "paren":
 		return "(" + e.L.sql(upper) + ")"
 	default:
@@ -306,6 +313,8 @@ func (e *Expr) eval(rows []gen.Row) value {
 	case "lit":
 		f, _ := strconv.ParseFloat(e.Lit, 64)
 		return value{f: f}
+	case "litlen":
+		return value{f: float64(len(e.Fn) + len(e.Arg) + 2)}
 	case "paren":
 		return e.L.eval(rows)
 	}
@@ -452,7 +461,7 @@ func genOp(t *rapid.T, allowDiv bool) string {
 }
 
 var forms = []string{"agg", "agg", "agg-op-lit", "agg-op-lit-op-lit", "lit-op-agg", "lit-op-agg", "agg-op-agg", "agg-op-agg",
-	"paren-left", "paren-right", "paren-whole", "paren-plain", "nested", "exprarg-plain", "exprarg-plus", "exprarg-ratio", "exprarg-pair"}
+	"paren-left", "paren-right", "paren-whole", "paren-plain", "nested", "exprarg-plain", "exprarg-plus", "exprarg-ratio", "exprarg-pair", "agg-plus-litlen"}
 
 // arithmetic arguments of aggregates; all exact on quarter-step inputs
 var exprArgs = []string{"x * 2", "x - 1", "x + y", "y * 3", "z + 1", "y - x", "z * 0.5"}
@@ -532,6 +541,13 @@ func genItem(t *rapid.T) Item {
 		e = paren(genAgg(t, nullable))
 	case "nested": // ((agg + lit) * lit) - agg
 		e = bin(genOp(t, false), paren(bin(genOp(t, true), paren(bin(genOp(t, false), genAgg(t, nullable), genLit(t))), genLit(t))), genAgg(t, nullable))
+	case "agg-plus-litlen": // agg(x) + length('agg(x)'): call text inside a literal stays text
+		a := genAgg(t, nullable)
+		if a.Arg == "*" {
+			a.Arg = "x"
+		}
+		a.Bt = false
+		e = bin("+", a, &Expr{K: "litlen", Fn: a.Fn, Arg: a.Arg})
 	case "exprarg-plain":
 		e = agg(rapid.SampledFrom(aggFns).Draw(t, "fn"), rapid.SampledFrom(exprArgs).Draw(t, "earg"))
 	case "exprarg-plus": // agg(x * 2) + 1
